@@ -51,7 +51,7 @@ def run(res, tier, seed, replay):
             res.tie_break(f"the logged run is not a legal run of the abstract machine (a propagation whose reason is not unit, or an "
                           f"illegal decision) in {r['stream']}: checker verdict {r['trace']}; the verdict itself agrees with the reference",
                           tc.trace_replay(r))
-        if k in ("sat", "unsat") and not enctie.ok(r, ("db",)):
+        if k in ("sat", "unsat") and not enctie.ok(r, ("db", "done")):
             res.tie_break(f"encoder correspondence no longer checks for a run in {r['stream']}: the clauses added by the "
                           f"implementation differ from the encoder model (theorems C02_encoder_*): {r['enc']}; the verdict itself "
                           f"agrees with the reference", enctie.replay(r))
